@@ -94,10 +94,9 @@ ClientOrderFree == (ClientNs \in DOMAIN st.ns) =>
 (* ... and, once it has the current assignments of a live namespace, to the shard the servers use *)
 RoutingAgrees == (fresh /\ ClientNs \in DOMAIN st.ns /\ Published(st, ClientNs) # {}) =>
     \A h \in AllHashes : RouteSet(client, h) = RouteSet(Published(st, ClientNs), h)
-(* GenerateShards itself.  Its bucket size is rounded UP, so n-1 buckets must fit: the arithmetic is only  *)
-(* right for n*(n-2) < B^2 - 1, i.e. up to n = B shards (65536 in the real space; from 65537 on the lower *)
-(* bound of the last shard overflows -- TLC shows it with k = B + 1 here).  Counts up to B are claimed.    *)
-GenOK == \A k \in 1..B : PartitionSet(Range(GenShards(7, k))) /\ Cardinality({s.id : s \in Range(GenShards(7, k))}) = k
+(* GenerateShards itself, for every count the small space can hold with non-empty shards.  (Before the fix *)
+(* in /repo the bucket size was always rounded up and k = B + 1 -- 65537 in the real space -- wrapped.)     *)
+GenOK == \A k \in 1..(B * B - 1) : PartitionSet(Range(GenShards(7, k))) /\ Cardinality({s.id : s \in Range(GenShards(7, k))}) = k
 ASSUME GenOK
 
 ExportSteps == (Export = "steps") => PrintT(<<"STEP", ToJson(hist')>>)
